@@ -82,3 +82,31 @@ Theorem C04_components_are_separated : forall o gs ns es,
   (forall a, In a ns -> 0 <= on_x a).
 Proof. exact collect_all_separated. Qed.
 Print Assumptions C04_components_are_separated.
+
+(* ---------- end to end (Proofs/E2E*.v, Whole*.v, NS*.v, Final.v): no premise besides hypotheses on the input ---------- *)
+From Autog Require Import Pipeline E2EBackbone E2EOutput WholeCrossings WholeOverlap WholeLayout Final.
+Local Open Scope Q_scope.
+
+
+(* [W3_statement o g'] (Proofs/WholeOverlap.v), helper nodes included: all coordinates and sizes are >= 0; any two
+   distinct nodes are either in the same band with one at least NodeSpacing left of the other, or in different
+   bands with one at least LayerSpacing above the other — so no two rectangles intersect *)
+Theorem C04_component_end_to_end : forall o g g' x, component_input g -> options_ok o ->
+  sizes_nonneg g -> spacing_nonneg o -> layout_component o g = Ok (g', x) -> W3_statement o g'.
+Proof. exact G5_no_overlap. Qed.
+Print Assumptions C04_component_end_to_end.
+
+(* the whole Layout: all x >= 0, and nodes of different connected components are at least NodeSpacing apart *)
+Theorem C04_layout_components_apart : forall (A : Type) (eqA : A -> A -> bool), (forall x y, eqA x y = true <-> x = y) ->
+  forall o fixed sizes es ids ns oes xs, options_ok o ->
+  layout A eqA o fixed sizes es = Ok (ids, (ns, oes, xs)) ->
+  spacing_nonneg o -> sizes_cfg_nonneg A eqA fixed sizes ids -> o_virtual o = false ->
+  (forall a, In a ns -> 0 <= on_x a) /\
+  (forall g, Populate.populate A eqA es = Ok (ids, g) ->
+     let cs := Populate.components (Populate.apply_sizes A eqA fixed sizes ids g) in
+     (forall a, In a ns -> exists i, (i < length cs)%nat /\ In (on_id a) (g_N (nth i cs Shift.graph0))) /\
+     (forall i j a b, (i < j)%nat -> (j < length cs)%nat -> In a ns -> In b ns ->
+        In (on_id a) (g_N (nth i cs Shift.graph0)) -> In (on_id b) (g_N (nth j cs Shift.graph0)) ->
+        on_x a + on_w a + o_node_spacing o <= on_x b)).
+Proof. exact G8_layout_separated. Qed.
+Print Assumptions C04_layout_components_apart.
